@@ -25,6 +25,9 @@ pub struct Diag {
     /// a power 0^0 was evaluated (= 1); generic for a constant expression, a measure-zero
     /// coincidence when the exponent depends on the assignment
     pub zero_pow_zero: bool,
+    /// an integer power of a base on the negative real axis: mathematically continuous, but the
+    /// polar formula's rounding noise changes sign with the sign of the base's zero imaginary part
+    pub negative_base_integer_power: bool,
     /// an operation was evaluated where its floating-point formula is unstable (cis with a large
     /// positive imaginary part: cos z + i sin z cancels catastrophically)
     pub unstable: bool,
@@ -65,8 +68,12 @@ pub fn pow(x: Complex64, y: Complex64, diag: &mut Diag) -> Complex64 {
         diag.zero_base = true;
         return if y.re > 0.0 { Complex64::new(0.0, 0.0) } else { Complex64::new(f64::NAN, f64::NAN) };
     }
-    if !is_integer(y) && near_negative_real_axis(x) {
-        diag.branch_cut = true;
+    if near_negative_real_axis(x) {
+        if is_integer(y) {
+            diag.negative_base_integer_power = true;
+        } else {
+            diag.branch_cut = true;
+        }
     }
     (y * x.ln()).exp()
 }
